@@ -130,7 +130,8 @@ impl Range {
         if self.is_empty() || other.is_empty() {
             false
         } else {
-            self.hi + 1 == other.lo || other.hi + 1 == self.lo
+            // (`hi` may be the largest line number there is)
+            self.hi.checked_add(1) == Some(other.lo) || other.hi.checked_add(1) == Some(self.lo)
         }
     }
 
